@@ -43,6 +43,29 @@ type loopSpec struct {
 	Form    string // top | breaktest | bottom | top-with-break | top-with-continue | cond-update
 	Nested  bool   // wrap in an outer counted loop 0..2
 	Sibling bool   // an unrelated counted loop with the same start and step runs first
+	Ty      string // type of the counter and of the parameters: "" = int, or uint8 / int8 / uint16 / int32
+}
+
+func (l loopSpec) ty() string {
+	if l.Ty == "" {
+		return "int"
+	}
+	return l.Ty
+}
+
+// wrapTo reduces x to the value range of the counter's type
+func wrapTo(ty string, x int64) int64 {
+	switch ty {
+	case "uint8":
+		return int64(uint8(x))
+	case "int8":
+		return int64(int8(x))
+	case "uint16":
+		return int64(uint16(x))
+	case "int32":
+		return int64(int32(x))
+	}
+	return x
 }
 
 func (l loopSpec) stepStmt() string {
@@ -57,8 +80,9 @@ func (l loopSpec) sources() (plain, twin string) {
 	cond := fmt.Sprintf("i %s %s", l.Cmp, l.Limit)
 	ncond := fmt.Sprintf("i %s %s", negCmp(l.Cmp), l.Limit)
 	var pl, tw strings.Builder
-	fmt.Fprintf(&pl, "func %s(a int, b int) int {\n\tt := 0\n", l.Name)
-	fmt.Fprintf(&tw, "func %s(a int, b int) (int, []int) {\n\tt := 0\n\tbodies := 0\n\tvar hdr []int\n\tguard := 0\n", l.Name)
+	T := l.ty()
+	fmt.Fprintf(&pl, "func %s(a %s, b %s) int {\n\tt := 0\n", l.Name, T, T)
+	fmt.Fprintf(&tw, "func %s(a0 int, b0 int) (int, []int) {\n\ta, b := %s(a0), %s(b0)\n\t_, _ = a, b\n\tt := 0\n\tbodies := 0\n\tvar hdr []int\n\tguard := 0\n", l.Name, T, T)
 	ind := "\t"
 	if l.Sibling {
 		sib := "\tfor j := 0; j < 3; j++ {\n\t\tt += j * 2\n\t}\n"
@@ -70,36 +94,47 @@ func (l loopSpec) sources() (plain, twin string) {
 		tw.WriteString("\tfor o := 0; o < 2; o++ {\n\tif o == 1 { break }\n") // record the first activation only
 		ind = "\t\t"
 	}
-	body := ind + "\tt += i\n"
-	bodyTw := ind + "\tbodies++\n" + ind + "\tt += i\n"
+	body := ind + "\tt += int(i)\n"
+	bodyTw := ind + "\tbodies++\n" + ind + "\tt += int(i)\n"
+	start := l.Start
+	if _, err := strconv.ParseInt(l.Start, 10, 64); err == nil && l.Ty != "" {
+		start = fmt.Sprintf("%s(%s)", T, l.Start) // `i := 7` would make the counter an int
+	}
 	guard := ind + "\tif guard++; guard > 10000 { panic(\"diverges\") }\n"
 	switch l.Form {
 	case "top":
-		fmt.Fprintf(&pl, "%sfor i := %s; %s; %s {\n%s%s}\n", ind, l.Start, cond, l.stepStmt(), body, ind)
-		fmt.Fprintf(&tw, "%si := %s\n%sfor {\n%s%s\thdr = append(hdr, i)\n%s\tif %s {\n%s\t\tbreak\n%s\t}\n%s%s\t%s\n%s}\n", ind, l.Start, ind, guard, ind, ind, ncond, ind, ind, bodyTw, ind, l.stepStmt(), ind)
+		fmt.Fprintf(&pl, "%sfor i := %s; %s; %s {\n%s%s}\n", ind, start, cond, l.stepStmt(), body, ind)
+		fmt.Fprintf(&tw, "%si := %s\n%sfor {\n%s%s\thdr = append(hdr, int(i))\n%s\tif %s {\n%s\t\tbreak\n%s\t}\n%s%s\t%s\n%s}\n", ind, start, ind, guard, ind, ind, ncond, ind, ind, bodyTw, ind, l.stepStmt(), ind)
 	case "breaktest":
-		fmt.Fprintf(&pl, "%si := %s\n%sfor {\n%s\tif %s {\n%s\t\tbreak\n%s\t}\n%s%s\t%s\n%s}\n", ind, l.Start, ind, ind, ncond, ind, ind, body, ind, l.stepStmt(), ind)
-		fmt.Fprintf(&tw, "%si := %s\n%sfor {\n%s%s\thdr = append(hdr, i)\n%s\tif %s {\n%s\t\tbreak\n%s\t}\n%s%s\t%s\n%s}\n", ind, l.Start, ind, guard, ind, ind, ncond, ind, ind, bodyTw, ind, l.stepStmt(), ind)
+		fmt.Fprintf(&pl, "%si := %s\n%sfor {\n%s\tif %s {\n%s\t\tbreak\n%s\t}\n%s%s\t%s\n%s}\n", ind, start, ind, ind, ncond, ind, ind, body, ind, l.stepStmt(), ind)
+		fmt.Fprintf(&tw, "%si := %s\n%sfor {\n%s%s\thdr = append(hdr, int(i))\n%s\tif %s {\n%s\t\tbreak\n%s\t}\n%s%s\t%s\n%s}\n", ind, start, ind, guard, ind, ind, ncond, ind, ind, bodyTw, ind, l.stepStmt(), ind)
 	case "bottom":
-		fmt.Fprintf(&pl, "%si := %s\n%sfor {\n%s%s\t%s\n%s\tif %s {\n%s\t\tbreak\n%s\t}\n%s}\n", ind, l.Start, ind, body, ind, l.stepStmt(), ind, ncond, ind, ind, ind)
-		fmt.Fprintf(&tw, "%si := %s\n%sfor {\n%s%s\thdr = append(hdr, i)\n%s%s\t%s\n%s\tif %s {\n%s\t\tbreak\n%s\t}\n%s}\n", ind, l.Start, ind, guard, ind, bodyTw, ind, l.stepStmt(), ind, ncond, ind, ind, ind)
+		fmt.Fprintf(&pl, "%si := %s\n%sfor {\n%s%s\t%s\n%s\tif %s {\n%s\t\tbreak\n%s\t}\n%s}\n", ind, start, ind, body, ind, l.stepStmt(), ind, ncond, ind, ind, ind)
+		fmt.Fprintf(&tw, "%si := %s\n%sfor {\n%s%s\thdr = append(hdr, int(i))\n%s%s\t%s\n%s\tif %s {\n%s\t\tbreak\n%s\t}\n%s}\n", ind, start, ind, guard, ind, bodyTw, ind, l.stepStmt(), ind, ncond, ind, ind, ind)
 	case "top-with-break":
 		extra := ind + "\tif t > 40 {\n" + ind + "\t\tbreak\n" + ind + "\t}\n"
-		fmt.Fprintf(&pl, "%sfor i := %s; %s; %s {\n%s%s%s}\n", ind, l.Start, cond, l.stepStmt(), extra, body, ind)
-		fmt.Fprintf(&tw, "%si := %s\n%sfor {\n%s%s\thdr = append(hdr, i)\n%s\tif %s {\n%s\t\tbreak\n%s\t}\n%s%s%s\t%s\n%s}\n", ind, l.Start, ind, guard, ind, ind, ncond, ind, ind, strings.Replace(extra, "break", "break", 1), bodyTw, ind, l.stepStmt(), ind)
+		fmt.Fprintf(&pl, "%sfor i := %s; %s; %s {\n%s%s%s}\n", ind, start, cond, l.stepStmt(), extra, body, ind)
+		fmt.Fprintf(&tw, "%si := %s\n%sfor {\n%s%s\thdr = append(hdr, int(i))\n%s\tif %s {\n%s\t\tbreak\n%s\t}\n%s%s%s\t%s\n%s}\n", ind, start, ind, guard, ind, ind, ncond, ind, ind, strings.Replace(extra, "break", "break", 1), bodyTw, ind, l.stepStmt(), ind)
 	case "top-with-continue":
 		extra := ind + "\tif i&1 == 1 {\n" + ind + "\t\tcontinue\n" + ind + "\t}\n"
-		fmt.Fprintf(&pl, "%sfor i := %s; %s; %s {\n%s%s%s}\n", ind, l.Start, cond, l.stepStmt(), extra, body, ind)
+		fmt.Fprintf(&pl, "%sfor i := %s; %s; %s {\n%s%s%s}\n", ind, start, cond, l.stepStmt(), extra, body, ind)
 		// twin: continue must still step
 		extraTw := ind + "\tbodies++\n" + ind + "\tif i&1 == 1 {\n" + ind + "\t\t" + l.stepStmt() + "\n" + ind + "\t\tcontinue\n" + ind + "\t}\n"
-		fmt.Fprintf(&tw, "%si := %s\n%sfor {\n%s%s\thdr = append(hdr, i)\n%s\tif %s {\n%s\t\tbreak\n%s\t}\n%s%s\tt += i\n%s\t%s\n%s}\n", ind, l.Start, ind, guard, ind, ind, ncond, ind, ind, extraTw, ind, ind, l.stepStmt(), ind)
+		fmt.Fprintf(&tw, "%si := %s\n%sfor {\n%s%s\thdr = append(hdr, int(i))\n%s\tif %s {\n%s\t\tbreak\n%s\t}\n%s%s\tt += int(i)\n%s\t%s\n%s}\n", ind, start, ind, guard, ind, ind, ncond, ind, ind, extraTw, ind, ind, l.stepStmt(), ind)
+	case "continue-before-test":
+		// `for i := S; ; i += d { if i&1 == 1 { continue }; if !(test) { break }; body }`: the only exit
+		// test is NOT evaluated on every iteration; "body executions" = iterations that do not leave
+		skip := ind + "\tif i&1 == 1 {\n" + ind + "\t\tcontinue\n" + ind + "\t}\n"
+		fmt.Fprintf(&pl, "%sfor i := %s; ; %s {\n%s%s\tif %s {\n%s\t\tbreak\n%s\t}\n%s%s}\n", ind, start, l.stepStmt(), skip, ind, ncond, ind, ind, body, ind)
+		skipTw := ind + "\tif i&1 == 1 {\n" + ind + "\t\tbodies++\n" + ind + "\t\t" + l.stepStmt() + "\n" + ind + "\t\tcontinue\n" + ind + "\t}\n"
+		fmt.Fprintf(&tw, "%si := %s\n%sfor {\n%s%s\thdr = append(hdr, int(i))\n%s%s\tif %s {\n%s\t\tbreak\n%s\t}\n%s%s\t%s\n%s}\n", ind, start, ind, guard, ind, skipTw, ind, ncond, ind, ind, bodyTw, ind, l.stepStmt(), ind)
 	case "geometric":
-		fmt.Fprintf(&pl, "%sfor i := %s; %s; i *= %d {\n%s%s}\n", ind, l.Start, cond, l.Step, body, ind)
-		fmt.Fprintf(&tw, "%si := %s\n%sfor {\n%s%s\thdr = append(hdr, i)\n%s\tif %s {\n%s\t\tbreak\n%s\t}\n%s%s\ti *= %d\n%s}\n", ind, l.Start, ind, guard, ind, ind, ncond, ind, ind, bodyTw, ind, l.Step, ind)
+		fmt.Fprintf(&pl, "%sfor i := %s; %s; i *= %d {\n%s%s}\n", ind, start, cond, l.Step, body, ind)
+		fmt.Fprintf(&tw, "%si := %s\n%sfor {\n%s%s\thdr = append(hdr, int(i))\n%s\tif %s {\n%s\t\tbreak\n%s\t}\n%s%s\ti *= %d\n%s}\n", ind, start, ind, guard, ind, ind, ncond, ind, ind, bodyTw, ind, l.Step, ind)
 	default: // cond-update: the variable is not stepped on every path
 		upd := ind + "\tif t&1 == 0 {\n" + ind + "\t\t" + l.stepStmt() + "\n" + ind + "\t} else {\n" + ind + "\t\t" + l.stepStmt() + "\n" + ind + "\t\t" + l.stepStmt() + "\n" + ind + "\t}\n"
-		fmt.Fprintf(&pl, "%si := %s\n%sfor %s {\n%s%s%s}\n", ind, l.Start, ind, cond, body, upd, ind)
-		fmt.Fprintf(&tw, "%si := %s\n%sfor {\n%s%s\thdr = append(hdr, i)\n%s\tif %s {\n%s\t\tbreak\n%s\t}\n%s%s%s}\n", ind, l.Start, ind, guard, ind, ind, ncond, ind, ind, bodyTw, upd, ind)
+		fmt.Fprintf(&pl, "%si := %s\n%sfor %s {\n%s%s%s}\n", ind, start, ind, cond, body, upd, ind)
+		fmt.Fprintf(&tw, "%si := %s\n%sfor {\n%s%s\thdr = append(hdr, int(i))\n%s\tif %s {\n%s\t\tbreak\n%s\t}\n%s%s%s}\n", ind, start, ind, guard, ind, ind, ncond, ind, ind, bodyTw, upd, ind)
 	}
 	if l.Nested {
 		pl.WriteString("\t}\n")
@@ -135,7 +170,29 @@ func genLoopSpec(r *Rng, idx int) loopSpec {
 		// step points AWAY from the limit: terminates only when the test fails at once
 		l.Step = -l.Step
 	}
-	l.Form = pick(r, []string{"top", "top", "top", "breaktest", "breaktest", "bottom", "top-with-break", "top-with-continue", "cond-update"})
+	l.Form = pick(r, []string{"top", "top", "top", "breaktest", "breaktest", "bottom", "top-with-break", "top-with-continue", "cond-update", "continue-before-test"})
+	if r.Chance(30) {
+		// a narrow counter: the end of the type's range is within reach, so the counter can wrap around
+		// before the test fails (the loop then keeps running)
+		l.Ty = pick(r, []string{"uint8", "uint8", "int8", "uint16", "int32"})
+		near := map[string][]string{"uint8": {"255", "254", "250", "b", "b"}, "int8": {"127", "126", "120", "b", "b"}, "uint16": {"65535", "65533", "b"}, "int32": {"2147483647", "2147483640", "b"}}[l.Ty]
+		far := map[string][]string{"uint8": {"0", "1", "3", "a"}, "int8": {"-128", "-127", "-120", "a"}, "uint16": {"0", "2", "a"}, "int32": {"-2147483648", "-2147483644", "a"}}[l.Ty]
+		base := map[string][]string{"uint8": {"1", "240", "a"}, "int8": {"1", "100", "a"}, "uint16": {"65500", "a"}, "int32": {"2147483600", "a"}}[l.Ty]
+		baseDown := map[string][]string{"uint8": {"9", "17", "b"}, "int8": {"-100", "9", "b"}, "uint16": {"40", "b"}, "int32": {"-2147483600", "b"}}[l.Ty]
+		st := pick(r, []int{1, 2, 3, 5})
+		if r.Chance(60) {
+			l.Start, l.Limit, l.Step, l.Cmp = pick(r, base), pick(r, near), st, pick(r, []string{"<", "<", "<=", "!="})
+		} else {
+			l.Start, l.Limit, l.Step, l.Cmp = pick(r, baseDown), pick(r, far), -st, pick(r, []string{">", ">", ">=", "!="})
+		}
+		if l.Cmp == "!=" {
+			if l.Step > 0 {
+				l.Step = 1
+			} else {
+				l.Step = -1
+			}
+		}
+	}
 	l.Nested = r.Chance(25)
 	l.Sibling = r.Chance(20)
 	if r.Chance(7) {
@@ -147,6 +204,21 @@ func genLoopSpec(r *Rng, idx int) loopSpec {
 }
 
 var loopArgs = [][2]int{{0, 0}, {0, 5}, {1, 10}, {3, 3}, {2, 17}, {5, 2}, {-2, 9}, {4, 11}, {0, 1}, {7, 7}, {1, 6}, {-3, 4}}
+
+// argument vectors of the narrow counter types: small values and values next to the ends of the range
+var loopArgsNarrow = map[string][][2]int{
+	"uint8":  {{0, 0}, {0, 5}, {1, 10}, {3, 3}, {5, 2}, {4, 255}, {1, 254}, {250, 255}, {7, 7}, {200, 4}, {241, 253}, {9, 1}},
+	"int8":   {{0, 0}, {0, 5}, {1, 10}, {-3, 4}, {5, 2}, {1, 127}, {-128, -120}, {120, 127}, {7, 7}, {100, -100}, {3, 126}, {-120, -128}},
+	"uint16": {{0, 0}, {0, 5}, {1, 10}, {5, 2}, {65500, 65535}, {65530, 65534}, {7, 7}, {40, 0}, {40, 2}, {65501, 65533}, {3, 3}, {9, 1}},
+	"int32":  {{0, 0}, {0, 5}, {1, 10}, {-3, 4}, {5, 2}, {2147483600, 2147483647}, {2147483630, 2147483646}, {7, 7}, {-2147483600, -2147483648}, {-2147483630, -2147483647}, {3, 3}, {9, 1}},
+}
+
+func (l loopSpec) args() [][2]int {
+	if v, ok := loopArgsNarrow[l.Ty]; ok {
+		return v
+	}
+	return loopArgs
+}
 
 // evalSCEV evaluates a SCEV tree with parameter values substituted; ok=false when it contains
 // something that is not a constant or a parameter.
@@ -202,7 +274,7 @@ func evalSCEV(s loop.SCEV, env map[ssa.Value]*big.Int) (*big.Int, bool) {
 }
 
 func suiteLoops(c *Ctx) error {
-	c.Res.Rule = "generated counted loops (up/down; tests < <= > >= !=; steps 1,2,3,5 and negative; constant and parameter bounds; forms: top-tested, break-tested `for { if !(test) { break }; …}`, bottom-tested, with an extra break, with continue, with a conditionally doubled update, with a multiplicative update; optionally nested in an outer loop, optionally after a sibling loop with the same start and step) x 12 argument vectors; the real loop analysis of the plain function vs a natively executed instrumented twin recording the header values and body count; checked only where the analysis makes a claim (basic induction variable / evaluable trip count); non-trivial = the analysis made at least one claim and the loop ran at least once; distinct by (loop, arguments)"
+	c.Res.Rule = "generated counted loops (up/down; tests < <= > >= !=; steps 1,2,3,5 and negative; constant and parameter bounds; counters of type int and, in 30% of the loops, uint8 / int8 / uint16 / int32 with bounds next to the end of the range so that the counter can wrap around; forms: top-tested, a single exit test that is skipped on odd iterations (continue before the test), break-tested `for { if !(test) { break }; …}`, bottom-tested, with an extra break, with continue, with a conditionally doubled update, with a multiplicative update; optionally nested in an outer loop, optionally after a sibling loop with the same start and step) x 12 argument vectors; the real loop analysis of the plain function vs a natively executed instrumented twin recording the header values and body count; checked only where the analysis makes a claim (basic induction variable / evaluable trip count); non-trivial = the analysis made at least one claim and the loop ran at least once; distinct by (loop, arguments)"
 	n := c.N
 	if n == 0 {
 		n = 120
@@ -221,7 +293,7 @@ func suiteLoops(c *Ctx) error {
 	}
 	twin.WriteString("func run(name string, f func(int, int) (int, []int), a, b int) {\n\tdefer func() {\n\t\tif r := recover(); r != nil {\n\t\t\tfmt.Printf(\"%s|%d|%d|diverges\\n\", name, a, b)\n\t\t}\n\t}()\n\tn, h := f(a, b)\n\tfmt.Printf(\"%s|%d|%d|%d|%v\\n\", name, a, b, n, h)\n}\n\nfunc main() {\n")
 	for _, l := range specs {
-		for _, ab := range loopArgs {
+		for _, ab := range l.args() {
 			fmt.Fprintf(&twin, "\trun(%q, %s, %d, %d)\n", l.Name, l.Name, ab[0], ab[1])
 		}
 	}
@@ -317,7 +389,10 @@ func suiteLoops(c *Ctx) error {
 				c.Count("claims_trip_count")
 			}
 		}
-		for _, ab := range loopArgs {
+		if l.Ty != "" {
+			c.Count("counter_" + l.Ty)
+		}
+		for _, ab := range l.args() {
 			ob, ok := native[fmt.Sprintf("%s|%d|%d", l.Name, ab[0], ab[1])]
 			if !ok || ob.div {
 				c.Skip("diverges_or_missing")
@@ -350,7 +425,7 @@ func suiteLoops(c *Ctx) error {
 				}
 				claimed = true
 				for k, v := range ob.hdr {
-					want := s0.Int64() + int64(k)*st.Int64()
+					want := wrapTo(l.Ty, s0.Int64()+int64(k)*st.Int64()) // "modulo its integer width"
 					if v != want {
 						rp["iv_start"], rp["iv_step"] = s0.String(), st.String()
 						c.Violate("C12", "C12/induction-variable-closed-form-wrong:"+l.Form, fmt.Sprintf("%s(a=%d,b=%d): the analysis says i = %s + k*%s but the %d-th header value is %d", l.Name, ab[0], ab[1], s0, st, k, v), rp)
@@ -369,7 +444,7 @@ func suiteLoops(c *Ctx) error {
 					}
 					claimed = true
 					for k, v := range ob.hdr {
-						if v != S+int64(k)*T {
+						if v != wrapTo(l.Ty, S+int64(k)*T) {
 							rp["recurrence_in_ir"] = m[0]
 							c.Violate("C12", "C12/ir-recurrence-contradicts-execution:"+l.Form, fmt.Sprintf("%s(a=%d,b=%d): the canonical IR contains %s for the variable starting at %d, but its %d-th header value is %d", l.Name, ab[0], ab[1], m[0], s0, k, v), rp)
 							break
